@@ -35,7 +35,7 @@ fn die(msg: &str) -> ! {
     std::process::exit(2);
 }
 
-#[derive(Default, Debug)]
+#[derive(Default, Debug, Clone)]
 struct ItemSpec {
     file: String,
     selector: String,
@@ -46,6 +46,7 @@ struct ItemSpec {
     retname: Option<String>,
     ret: Option<String>,
     loops: Vec<(String, Vec<String>)>,
+    loop_firsts: Vec<(String, Vec<String>)>, // ghost text as first statement of the loop body (anchor = loop prefix)
     befores: Vec<(String, Vec<String>)>,
     afters: Vec<(String, Vec<String>)>,
     closures: Vec<(String, Vec<String>)>, // closure anchor (ordinal `N` or key `callee#k`): text spliced between `|..|` and body
@@ -74,6 +75,7 @@ struct FragmentSpec {
     name: String,
     params: String, // parameter list text of the lifted fn (incl. self if needed)
     ret: String,    // return type text
+    tail: String,   // `stmt` fragments: tail expression appended after the lifted statement
 }
 
 struct Args {
@@ -248,6 +250,7 @@ fn parse_template(text: &str) -> Vec<Result<String, ItemSpec>> {
         Sig,
         First,
         Loop(usize),
+        LoopFirst(usize),
         Before(usize),
         After(usize),
         Closure(usize),
@@ -300,7 +303,7 @@ fn parse_template(text: &str) -> Vec<Result<String, ItemSpec>> {
                     let mut spec = ItemSpec { tmpl_line: ln + 1, mode: "verify".into(), ..Default::default() };
                     spec.file = file.to_string();
                     spec.selector = selector.trim().to_string();
-                    spec.fragment = Some(FragmentSpec { kind: kind.to_string(), anchor: anchor.trim().to_string(), name: name.trim().to_string(), params: String::new(), ret: String::new() });
+                    spec.fragment = Some(FragmentSpec { kind: kind.to_string(), anchor: anchor.trim().to_string(), name: name.trim().to_string(), params: String::new(), ret: String::new(), tail: String::new() });
                     cur = Some(spec);
                     sec = Sec::None;
                 }
@@ -332,6 +335,7 @@ fn parse_template(text: &str) -> Vec<Result<String, ItemSpec>> {
                         "first" => sec = Sec::First,
                         "retname" => spec.retname = Some(arg.to_string()),
                         "params" => { if let Some(f) = spec.fragment.as_mut() { f.params = arg.to_string(); } else { die("//@params outside //@frag"); } }
+                        "tail" => { if let Some(f) = spec.fragment.as_mut() { f.tail = arg.to_string(); } else { die("//@tail outside //@frag"); } }
                         "ret" => { if let Some(f) = spec.fragment.as_mut() { f.ret = arg.to_string(); } else { spec.ret = Some(arg.to_string()); } }
                         "viter" => spec.viter = true,
                         "viter-skip" => spec.viter_skip.push(arg.to_string()),
@@ -342,6 +346,10 @@ fn parse_template(text: &str) -> Vec<Result<String, ItemSpec>> {
                         "param-type" => { let (n, t) = arg.split_once(char::is_whitespace).unwrap_or_else(|| die("//@param-type NAME TYPE")); spec.param_types.push((n.trim().to_string(), t.trim().to_string())); }
                         "drop-derive" => spec.drop_derive.push(arg.to_string()),
                         "attr" => spec.attrs.push(arg.to_string()),
+                        "loop-first" => {
+                            spec.loop_firsts.push((unquote(arg), Vec::new()));
+                            sec = Sec::LoopFirst(spec.loop_firsts.len() - 1);
+                        }
                         "loop" => {
                             spec.loops.push((unquote(arg), Vec::new()));
                             sec = Sec::Loop(spec.loops.len() - 1);
@@ -397,6 +405,7 @@ fn parse_template(text: &str) -> Vec<Result<String, ItemSpec>> {
                                 name,
                                 params: parts[1].to_string(),
                                 ret: parts[2].to_string(),
+                                tail: String::new(),
                             });
                         }
                         _ => die(&format!("template line {}: unknown directive {}", ln + 1, cmd)),
@@ -416,6 +425,7 @@ fn parse_template(text: &str) -> Vec<Result<String, ItemSpec>> {
                 Sec::Sig => spec.sig.push(line.to_string()),
                 Sec::First => spec.first.push(line.to_string()),
                 Sec::Loop(i) => spec.loops[i].1.push(line.to_string()),
+                Sec::LoopFirst(i) => spec.loop_firsts[i].1.push(line.to_string()),
                 Sec::Before(i) => spec.befores[i].1.push(line.to_string()),
                 Sec::After(i) => spec.afters[i].1.push(line.to_string()),
                 Sec::Closure(i) => spec.closures[i].1.push(line.to_string()),
@@ -622,7 +632,7 @@ fn fnv64(s: &str) -> String {
 }
 
 /// locate a fragment inside a function body: returns its byte span
-fn locate_fragment(c: &rewrite::Collector, kind: &str, anchor: &str, sel: &str) -> (usize, usize) {
+fn locate_fragment(c: &rewrite::Collector, src: &str, kind: &str, anchor: &str, sel: &str) -> (usize, usize) {
     match kind {
         "arg" => {
             let (m, k) = anchor.split_once(char::is_whitespace).unwrap_or_else(|| die("fragment: arg METHOD K"));
@@ -666,6 +676,16 @@ fn locate_fragment(c: &rewrite::Collector, kind: &str, anchor: &str, sel: &str) 
                 _ => die(&format!("lost anchor: {} has {} `let {} = ...` statements", sel, hits.len(), name)),
             }
         }
+        "stmt" => {
+            // `stmt "PREFIX"`: the unique statement whose normalised text starts with PREFIX (R8 for a statement:
+            // the lifted fn takes the variables it writes as `mut` parameters and returns them via //@tail)
+            let a = unquote(anchor);
+            let hits: Vec<&(usize, usize)> = c.stmts.iter().filter(|(s, e)| norm(&src[*s..*e]).starts_with(&norm(&a))).collect();
+            if hits.len() != 1 {
+                die(&format!("lost anchor: {} has {} statements starting with `{}`", sel, hits.len(), a));
+            }
+            *hits[0]
+        }
         _ => die(&format!("unknown fragment kind {}", kind)),
     }
 }
@@ -686,7 +706,7 @@ fn emit_fragment(em: &mut Emit, spec: &ItemSpec, src: &str, parsed: &syn::File, 
         let mut holes: Vec<(usize, usize)> = Vec::new();
         for h in &spec.sig {
             let (kind, anchor) = h.split_once(char::is_whitespace).unwrap_or_else(|| die("skeleton hole: kind anchor"));
-            holes.push(locate_fragment(&c, kind, anchor.trim(), &spec.selector));
+            holes.push(locate_fragment(&c, src, kind, anchor.trim(), &spec.selector));
         }
         holes.sort();
         let (_, fe) = br(f_span);
@@ -717,7 +737,7 @@ fn emit_fragment(em: &mut Emit, spec: &ItemSpec, src: &str, parsed: &syn::File, 
         return;
     }
     let fr = spec.fragment.as_ref().unwrap();
-    let (s, e) = locate_fragment(&c, &fr.kind, &fr.anchor, &spec.selector);
+    let (s, e) = locate_fragment(&c, src, &fr.kind, &fr.anchor, &spec.selector);
     let out_start = em.line;
     em.push(&format!("//@begin-fragment {} {} [{} {}] as {} src_lines={}-{}\n", spec.file, spec.selector, fr.kind, fr.anchor, fr.name, line_of(src, s), line_of(src, e)), json!({"kind": "marker"}));
     let mut head = match &impl_ty {
@@ -740,10 +760,27 @@ fn emit_fragment(em: &mut Emit, spec: &ItemSpec, src: &str, parsed: &syn::File, 
     // the HOST function), R5 iterator entry, R6 for-patterns, R9
     let mut frag_edits: Vec<Edit> = Vec::new();
     let mut frag_rewrites: Vec<String> = Vec::new();
+    // closure anchors `local#K`: the K-th closure INSIDE the lifted span (independent of closures elsewhere in the host)
+    let mut lspec = spec.clone();
+    let inside: Vec<usize> = c.closure_nodes.iter().enumerate().filter(|(_, cl)| cl.span.0 >= s && cl.span.1 <= e).map(|(i, _)| i).collect();
+    let tr = |k: &String| -> String {
+        match k.strip_prefix("local#").and_then(|n| n.parse::<usize>().ok()) {
+            Some(n) => match inside.get(n) { Some(g) => g.to_string(), None => format!("{} (no such closure inside the fragment)", k) },
+            None => k.clone(),
+        }
+    };
+    for (k, _) in lspec.closures.iter_mut() { *k = tr(k); }
+    for (k, _) in lspec.closure_params.iter_mut() { *k = tr(k); }
+    for k in lspec.optional_closures.iter_mut() { *k = tr(k); }
+    let spec = &lspec;
     hint_edits(spec, src, &c, &mut frag_edits);
+    rewrite::drop_print_stmts(f_block, src, &mut frag_edits, &mut frag_rewrites); // R1 inside the lifted span
     inner_edits(spec, src, f_block, &c, &mut frag_edits, &mut frag_rewrites);
     frag_edits.retain(|ed| ed.start >= s && ed.end <= e);
     apply_edits(src, s, e, &mut frag_edits, em, &spec.file);
+    if !fr.tail.is_empty() {
+        em.push(&format!("\n{}\n", fr.tail), json!({"kind": "R8 tail"}));
+    }
     em.push(if impl_ty.is_some() { "\n}\n}\n//@end\n" } else { "\n}\n//@end\n" }, json!({"kind": "wrap"}));
     items_json.push(json!({"file": spec.file, "path": "", "selector": format!("{} [{} {}]", spec.selector, fr.kind, fr.anchor), "mode": "fragment",
         "byte_start": s, "byte_end": e, "src_line_start": line_of(src, s), "src_line_end": line_of(src, e),
@@ -988,6 +1025,15 @@ fn hint_edits(spec: &ItemSpec, src: &str, c: &rewrite::Collector, edits: &mut Ve
         if let Some((_, es)) = c.for_exprs.iter().find(|(ls, _)| *ls == hits[0].0) {
             edits.push(Edit { start: *es, end: *es, text: "it: ".into(), kind: "R4 for-iterator name".into(), prio: 0 });
         }
+    }
+    for (anchor, lines) in &spec.loop_firsts {
+        let hits: Vec<&(usize, usize, usize)> = c.loops.iter().filter(|(s, e, _)| norm(&src[*s..*e]).starts_with(&norm(anchor))).collect();
+        if hits.len() != 1 {
+            die(&format!("lost anchor: loop `{}` in {} matches {} loops", anchor, spec.selector, hits.len()));
+        }
+        let mut t = String::from("\n");
+        for l in lines { t.push_str(l); t.push('\n'); }
+        edits.push(Edit { start: hits[0].2 + 1, end: hits[0].2 + 1, text: t, kind: format!("loop-first:{}", anchor), prio: 4 });
     }
     for (is_before, list) in [(true, &spec.befores), (false, &spec.afters)] {
         for (anchor, lines) in list {
